@@ -15,9 +15,8 @@ def one(bid, verbose):
     scratch = f"/tmp/espada-bn-{bid}"
     shutil.rmtree(scratch, ignore_errors=True)
     os.makedirs(scratch)
-    for n in ("src", "examples", "benches", "Cargo.toml", "Cargo.lock"):
-        s, d = os.path.join("/repo", n), os.path.join(scratch, n)
-        (shutil.copytree if os.path.isdir(s) else shutil.copy)(s, d)
+    # the corpus patches are relative to the committed tree: take HEAD, not a working tree another tool may have patched
+    subprocess.run("git -C /repo archive HEAD src examples benches Cargo.toml Cargo.lock | tar x -C " + scratch, shell=True, check=True)
     r = subprocess.run(["patch", "-p1", "-s", "-i", os.path.join(HERE, "benign", bid, "patch.diff")], cwd=scratch,
                        stdout=subprocess.PIPE, stderr=subprocess.STDOUT, text=True)
     if r.returncode != 0:
